@@ -276,8 +276,11 @@ class LinSolve(Module):
         # Update solver with new matrix
         self.solver.update(mat)
 
-        # Solution
-        self.u = self.solver.solve(rhs, x0=self.u)
+        # Solution (the previous solution is used as initial guess, if it is of matching size and type)
+        x0 = None
+        if self.u is not None and np.shape(self.u) == np.shape(rhs) and self.u.dtype == np.result_type(mat.dtype, rhs):
+            x0 = self.u
+        self.u = self.solver.solve(rhs, x0=x0)
 
         return self.u
 
